@@ -275,6 +275,9 @@ func createBufferManager(listSizePercent []*SizePercentPair, path string, mem []
 		if sumPercent > 100 {
 			return nil, errors.New("the sum of all SizePercentPair's percent must be equals 100")
 		}
+		if pair.Size+bufferHeaderSize < bufferHeaderSize {
+			return nil, fmt.Errorf("SizePercentPair's Size:%d is too large, Size+%d must fit in an uint32", pair.Size, bufferHeaderSize)
+		}
 		bufferNum := uint32(bufferRegionCap*uint64(pair.Percent)/100) / (pair.Size + bufferHeaderSize)
 		needSize := countBufferListMemSize(bufferNum, pair.Size)
 		freeList, err := createFreeBufferList(bufferNum, pair.Size, mem, hadUsedOffset)
